@@ -309,8 +309,15 @@ type c28gLong struct {
 
 func (x c28gLong) run() string {
 	pnum, maxAcked := c28gNums(x.pnLen)
-	var k fixedKeys
-	k.init(x.suite, []byte(x.secret))
+	var k, rk fixedKeys
+	if x.ptype == packetTypeInitial {
+		// the keys every Initial packet really uses (RFC 9001 §5.2): derived
+		// from the destination connection ID, client writes, server reads
+		k, rk = initialKeys(x.dcid, clientSide).w, initialKeys(x.dcid, serverSide).r
+	} else {
+		k.init(x.suite, []byte(x.secret))
+		rk.init(x.suite, []byte(x.secret))
+	}
 	lp := longPacket{ptype: x.ptype, version: quicVersion1, num: pnum, dstConnID: x.dcid, srcConnID: x.scid, extra: x.token}
 	var w packetWriter
 	w.reset(1200)
@@ -333,8 +340,6 @@ func (x c28gLong) run() string {
 		return "sent=nil"
 	}
 	in := append(c28gExact(pkt), 0x40, 0x01, 0x02, 0x03) // followed by another packet in the datagram
-	var rk fixedKeys
-	rk.init(x.suite, []byte(x.secret))
 	p, n := parseLongHeaderPacket(in, rk, maxAcked)
 	skip := skipLongHeaderPacket(pkt)
 	s := fmt.Sprintf("added=%v parsed type=%v version=%x num=%d dcid=%x scid=%x token=%x n-len=%d skip-len=%d payload=%s pad=%d", added, p.ptype, p.version, p.num, p.dstConnID, p.srcConnID, p.extra, n-len(pkt), skip-len(pkt),
@@ -357,6 +362,69 @@ func (x c28gLong) want() string {
 		frames += fmt.Sprintf("{%d PADDING*%d}", npad, npad)
 	}
 	return fmt.Sprintf("added=true parsed type=%v version=%x num=%d dcid=%x scid=%x token=%x n-len=0 skip-len=0 payload=%s pad=0", x.ptype, uint32(quicVersion1), pnum, x.dcid, x.scid, x.token, frames)
+}
+
+// ---- one datagram as a connection writes it during the handshake: an Initial
+// packet that stays empty, a Handshake packet and a 1-RTT packet coalesced on
+// one writer; both sent-packet records stay referenced until the end (the
+// connection keeps them until they are acknowledged) and are then recycled.
+
+var (
+	c28gCoCrypto = c28gF{K: "crypto", A: 333, L: 120, Salt: 0x57}
+	c28gCoShort  = []c28gF{{K: "stream", A: 9, B: 77, L: 50, Salt: 0x68}, {K: "max_streams", A: 4321, Fin: true}, {K: "ping"}}
+)
+
+func c28gRunCoalesced() string {
+	dcid, scid := c28gData(8, 0x31), c28gData(8, 0x39)
+	hnum, hmax := c28gNums(2)
+	anum, amax := c28gNums(3)
+	var hk fixedKeys
+	hk.init(tls.TLS_AES_256_GCM_SHA384, []byte("c28g coalesced handshake"))
+	var ak updatingKeyPair
+	ak.r.init(tls.TLS_CHACHA20_POLY1305_SHA256, []byte("c28g coalesced 1rtt"))
+	ak.w = ak.r
+	ak.updateAfter = maxPacketNumber
+	rak := ak
+	var w packetWriter
+	w.reset(1200)
+	ip := longPacket{ptype: packetTypeInitial, version: quicVersion1, num: 2, dstConnID: dcid, srcConnID: scid}
+	w.startProtectedLongHeaderPacket(0, ip)
+	empty := w.finishProtectedLongHeaderPacket(0, initialKeys(dcid, clientSide).w, ip) == nil && len(w.datagram()) == 0
+	hp := longPacket{ptype: packetTypeHandshake, version: quicVersion1, num: hnum, dstConnID: dcid, srcConnID: scid}
+	w.startProtectedLongHeaderPacket(hmax, hp)
+	f, _ := c28gBuild(c28gCoCrypto)
+	added := f.write(&w)
+	sentH := w.finishProtectedLongHeaderPacket(hmax, hk, hp)
+	w.start1RTTPacket(anum, amax, dcid)
+	for _, fs := range c28gCoShort {
+		f, _ := c28gBuild(fs)
+		added = f.write(&w) && added
+	}
+	sentA := w.finish1RTTPacket(anum, amax, dcid, &ak)
+	dgram := append([]byte(nil), w.datagram()...)
+	if sentH == nil || sentA == nil {
+		return fmt.Sprintf("sent records: %v %v", sentH, sentA)
+	}
+	in := c28gExact(dgram)
+	p, n := parseLongHeaderPacket(in, hk, hmax)
+	if n < 0 {
+		n = len(in)
+	}
+	sp, err := parse1RTTPacket(in[n:], &rak, len(dcid), amax)
+	s := fmt.Sprintf("empty-initial=%v added=%v handshake{type=%v num=%d dcid=%x scid=%x %s} 1rtt{num=%d err=%v %s} sizes=%v", empty, added, p.ptype, p.num, p.dstConnID, p.srcConnID, c28gParseFrames(p.payload),
+		sp.num, err, c28gParseFrames(sp.payload), sentH.size+sentA.size == len(dgram) && n == sentH.size)
+	s += fmt.Sprintf(c28gSep+"sentH{num=%d size=%d type=%v ackEliciting=%v inFlight=%v b=%x} sentA{num=%d size=%d type=%v ackEliciting=%v inFlight=%v b=%x} dgram=%x",
+		sentH.num, sentH.size, sentH.ptype, sentH.ackEliciting, sentH.inFlight, sentH.b, sentA.num, sentA.size, sentA.ptype, sentA.ackEliciting, sentA.inFlight, sentA.b, dgram)
+	sentH.recycle()
+	sentA.recycle()
+	return s
+}
+
+func c28gWantCoalesced() string {
+	hnum, _ := c28gNums(2)
+	anum, _ := c28gNums(3)
+	return fmt.Sprintf("empty-initial=true added=true handshake{type=%v num=%d dcid=%x scid=%x %s} 1rtt{num=%d err=<nil> %s} sizes=true", packetTypeHandshake, hnum, c28gData(8, 0x31), c28gData(8, 0x39),
+		c28gWantFrames([]c28gF{c28gCoCrypto}), anum, c28gWantFrames(c28gCoShort))
 }
 
 // ---- transport parameters
@@ -504,7 +572,7 @@ func c28gOps(thorough bool) ([]vsched.Op, error) {
 			}},
 	}
 	longs := []c28gLong{
-		{name: "initial[aes128 pn2 dcid8 scid5 token70]{CRYPTO,pad to 1200}", ptype: packetTypeInitial, suite: tls.TLS_AES_128_GCM_SHA256, pnLen: 2, dcid: c28gData(8, 0xd0), scid: c28gData(5, 0xd8), token: c28gData(70, 0xc0), secret: "c28g long one",
+		{name: "initial[initialKeys(dcid) pn2 dcid8 scid5 token70]{CRYPTO,pad to 1200}", ptype: packetTypeInitial, suite: tls.TLS_AES_128_GCM_SHA256, pnLen: 2, dcid: c28gData(8, 0xd0), scid: c28gData(5, 0xd8), token: c28gData(70, 0xc0), secret: "c28g long one",
 			crypto: c28gF{K: "crypto", A: 0, L: 300, Salt: 0x17}, padTo: 1200},
 		{name: "empty-initial+handshake[chacha pn3 dcid20 scid0]{CRYPTO}", spec: true, ptype: packetTypeHandshake, suite: tls.TLS_CHACHA20_POLY1305_SHA256, pnLen: 3, dcid: c28gData(20, 0xe1), scid: nil, secret: "c28g long two",
 			crypto: c28gF{K: "crypto", A: 1200, L: 45, Salt: 0x27}},
@@ -514,7 +582,7 @@ func c28gOps(thorough bool) ([]vsched.Op, error) {
 	if thorough {
 		shorts = append(shorts, c28gShort{name: "1rtt[chacha pn1 dcid1]{CONNECTION_CLOSE(transport)}", suite: tls.TLS_CHACHA20_POLY1305_SHA256, pnLen: 1, dcid: c28gData(1, 0x91), secret: "c28g secret five",
 			frames: []c28gF{{K: "cc_transport", A: 0x0a, B: 0x1c, L: 40, Salt: 0x61}}})
-		longs = append(longs, c28gLong{name: "initial[aes128 pn1 dcid20 scid20 no token]{CRYPTO}", ptype: packetTypeInitial, suite: tls.TLS_AES_128_GCM_SHA256, pnLen: 1, dcid: c28gData(20, 0x71), scid: c28gData(20, 0x79), secret: "c28g long four",
+		longs = append(longs, c28gLong{name: "initial[initialKeys(dcid) pn1 dcid20 scid20 no token]{CRYPTO}", ptype: packetTypeInitial, suite: tls.TLS_AES_128_GCM_SHA256, pnLen: 1, dcid: c28gData(20, 0x71), scid: c28gData(20, 0x79), secret: "c28g long four",
 			crypto: c28gF{K: "crypto", A: 5, L: 64, Salt: 0x47}})
 	}
 	var ops []vsched.Op
@@ -539,6 +607,7 @@ func c28gOps(thorough bool) ([]vsched.Op, error) {
 	for _, x := range longs {
 		add("long-header-packet", x.name, x.want(), x.run)
 	}
+	add("coalesced-datagram", "datagram{empty Initial, handshake[aes256 pn2]{CRYPTO}, 1rtt[chacha pn3]{STREAM,MAX_STREAMS,PING}}", c28gWantCoalesced(), c28gRunCoalesced)
 	nv := 2
 	if thorough {
 		nv = 3
@@ -558,7 +627,7 @@ func c28gOps(thorough bool) ([]vsched.Op, error) {
 func TestVerif_C28_globals(t *testing.T) {
 	vx.Run(t, "C28", func(c *vx.Ctx) {
 		bounds := vx.Pick(c, []int{2}, []int{3})
-		c.Rule("concurrent part: for every unordered pair of calls from a small alphabet — four 1-RTT packets that together carry every frame type with distinctive field values (written by packetWriter.append*Frame into the thread's own packetWriter, one of them after a packet that was started and abandoned on the same writer, protected with its own keys under the three AEAD suites, all packet-number lengths, connection-ID lengths 0/5/8/20, parsed back with parse1RTTPacket, parseDebugFrame = the consume*Frame functions and consumeAckFrame; the sent-packet record is rendered and recycled as the connection does), Initial+token / Handshake (after an Initial packet left empty on the same writer) / 0-RTT packets with a CRYPTO frame (parseLongHeaderPacket, skipLongHeaderPacket), marshal+unmarshal of two (thorough: three) fully populated transport-parameter sets, and one call that feeds every parser an input it must refuse — two threads run one call each (thorough: twice each, and two more packets) on the instrumented source of package quic; every schedule (quick: at most 2 preemptions; thorough: at most 3) at the scheduling points — before each statement mentioning a written package-level variable " + fmt.Sprint(zzWrittenGlobals) + ", sync.Pool Get/Put — is executed and each call must return exactly its sequential result")
+		c.Rule("concurrent part: for every unordered pair of calls from a small alphabet — four 1-RTT packets that together carry every frame type with distinctive field values (written by packetWriter.append*Frame into the thread's own packetWriter, one of them after a packet that was started and abandoned on the same writer, protected with its own keys under the three AEAD suites, all packet-number lengths, connection-ID lengths 0/5/8/20, parsed back with parse1RTTPacket, parseDebugFrame = the consume*Frame functions and consumeAckFrame; the sent-packet record is rendered and recycled as the connection does), Initial+token (protected with initialKeys of its destination connection ID) / Handshake (after an Initial packet left empty on the same writer) / 0-RTT packets with a CRYPTO frame (parseLongHeaderPacket, skipLongHeaderPacket), one datagram with an empty Initial, a Handshake and a 1-RTT packet coalesced on one writer whose two sent-packet records stay referenced until the end, marshal+unmarshal of two (thorough: three) fully populated transport-parameter sets, and one call that feeds every parser an input it must refuse — two threads run one call each (thorough: twice each, and two more packets) on the instrumented source of package quic; every schedule (quick: at most 2 preemptions; thorough: at most 3) at the scheduling points — before each statement mentioning a written package-level variable " + fmt.Sprint(zzWrittenGlobals) + ", sync.Pool Get/Put — is executed and each call must return exactly its sequential result")
 		c.Assume("concurrent part: expected frame bytes come from an independent RFC 9000 encoder over the real quicwire varint codec and expected parsed fields from the inputs; the protected packet bytes, the sent-packet record and the marshalled transport parameters are compared with the same call made alone on the instrumented source (their sequential correctness is the business of the other parts); statement granularity at mentions of written package-level variables; heap objects only reachable from them and locals aliasing them are not scheduling points; sync.Pool is one shared LIFO free list; the two threads never share a packetWriter, key set or buffer")
 		seq := 0
 		if !c.Quick() {
